@@ -40,6 +40,12 @@ type findServer struct {
 	wrap    int // how the handler hands errors to EncodeError: 0 as is, 1 wrapped with %w, 2 wrapped twice, 3 joined
 	// offTypes: resource types switched off by an empty path-type option
 	offTypes map[string]bool
+	// reuse: the handler hands every result over in the same buffers, which
+	// it refills for the next one (an iterator over a value store does so)
+	reuse  bool
+	ctxBuf []byte
+	mdBuf  []byte
+	ai     peer.AddrInfo
 }
 
 // wrapped adds the context a handler typically adds before reporting an error.
@@ -71,6 +77,25 @@ func (f *findServer) ServeHTTP(w http.ResponseWriter, req *http.Request) {
 	}
 	pw := rwriter.NewProviderResponseWriter(rw)
 	for _, pr := range f.index[string(pw.Multihash())] {
+		if f.reuse {
+			if pr.ContextID != nil {
+				f.ctxBuf = append(f.ctxBuf[:0], pr.ContextID...)
+				pr.ContextID = f.ctxBuf
+			}
+			if pr.Metadata != nil {
+				f.mdBuf = append(f.mdBuf[:0], pr.Metadata...)
+				pr.Metadata = f.mdBuf
+			}
+			if pr.Provider != nil {
+				f.ai.ID = pr.Provider.ID
+				if pr.Provider.Addrs == nil {
+					f.ai.Addrs = nil
+				} else {
+					f.ai.Addrs = append(f.ai.Addrs[:0], pr.Provider.Addrs...)
+				}
+				pr.Provider = &f.ai
+			}
+		}
 		if err := pw.WriteProviderResult(pr); err != nil {
 			f.r.Violate("c19.write", "WriteProviderResult: %v", err)
 		}
@@ -179,7 +204,7 @@ func runC19(r *simkit.Run, c Cfg) {
 	http.DefaultTransport = net.Transport()
 	preferJSON := tp.Chance(1, 2, "preferJson")
 	mhType, cidType := "multihash", "cid"
-	fs := &findServer{r: r, index: map[string][]model.ProviderResult{}, wrap: tp.Choose(4, "errwrap")}
+	fs := &findServer{r: r, index: map[string][]model.ProviderResult{}, wrap: tp.Choose(4, "errwrap"), reuse: tp.Chance(1, 3, "reuseBuffers")}
 	fs.opts = append(fs.opts, rwriter.WithPreferJson(preferJSON))
 	fs.offTypes = map[string]bool{}
 	switch tp.Choose(8, "paths") {
@@ -459,6 +484,14 @@ var c19Accepts = []struct {
 	{hdr: []string{"application/json, application/x-ndjson, ;;;"}, bad: true},
 	{hdr: []string{"*/*, ;"}, bad: true},
 	{hdr: []string{"application/json", ";;;"}, bad: true},
+	// weight zero: not acceptable
+	{hdr: []string{"application/json, application/x-ndjson;q=0"}, json: true},
+	{hdr: []string{"application/x-ndjson, application/json;q=0.0"}, nd: true},
+	{hdr: []string{"application/json;q=0, application/x-ndjson;q=0, text/html"}, bad: true},
+	{hdr: []string{"application/x-ndjson;q=0.000"}, bad: true},
+	// bytes that are not UTF-8 in a parameter value (legal in a header):
+	// the error message that quotes the header survives encode/decode
+	{hdr: []string{"text/html; a=\"\xff\xfe\""}, bad: true},
 }
 
 func c19Raw(r *simkit.Run, t *simkit.Task, net *simkit.Net, fs *findServer, ctx context.Context, base, mhType, cidType string, preferJSON bool, mhs []multihash.Multihash, absent multihash.Multihash) {
